@@ -180,7 +180,7 @@ Lemma accepts_final p st : st = Done \/ st = Failed ->
   get_state (rs_bs r) p = st -> get_state (rs_bs r') p = st.
 Proof.
   intros Hst. induction tr as [|e tr IH]; intros r r' Hinv H E; cbn in H.
-  - inversion H; subst. exact E.
+  - injection H as <-. exact E.
   - destruct (accept1 cf r e) as [r1|] eqn:E1; [|discriminate].
     apply (IH r1 r'); [exact (accept1_RInv cf decls r e r1 Hinv E1)|exact H|].
     rewrite (step_final r e r1 p Hinv (accept1_step cf r e r1 E1)); [exact E|].
